@@ -1,14 +1,17 @@
 import json, os, re
 
 SPEC = {
-    "lean_modules": ["SemaModel.C03.Props", "SemaModel.C03.Tie"],
+    "lean_modules": ["SemaModel.C03.Props", "SemaModel.C03.Tie", "SemaModel.C03.Formula"],
     "lean_dirs": ["SemaModel/C03", "SemaModel/C10"],
     "harness": "c03",
     "harness_args": {"quick": ["-n", 1000, "-len", 11], "thorough": ["-n", 7000, "-len", 14]},
     "timeout": {"quick": 600, "thorough": 2400},
     "level": "proof",
-    "tie": "T3 dump-and-search: after every batch of random histories (inserts, vector updates, vector removal, deletes, id reuse, batches naming a point twice, whole neighbourhoods deleted; degree bounds 1..5, search sizes 1..39, six metrics, none/binary/product quantisers, warm and cold cache) on a real file-backed shard the index is dumped through (*Shard).VerifDB(); for every query the dump, the real distance of the query to every stored vector (vectorstore.DistanceFromFloat of a store opened on the persisted bucket) and the pre-filter's node ids go to the Lean model of IndexVamana.Search/greedySearch/DistSet, whose answer (ids, order, distances, hybrid scores) must equal the answer of Shard.SearchPoints; the property oracle (brute force over the dump) judges the real answer directly, including each reported distance against the index's distance to the vector the point's DOCUMENT carries at the schema path right now (scratch vector store on the persisted bucket); the vector index is on a flat property in 45 % and on a NESTED path (n.v, n.m.v, a.b.c.v) in 55 % of the configurations, with updates that replace / delete the top-level object above the leaf, carry a sibling only, an empty object, a nil leaf or an unrelated key",
+    "tie": "T1 (formula): the hybrid expression and the weight default of IndexVamana.Search are regenerated on every run into SemaModel/Generated/Hybrid.lean (floats symbolic, Go.FExpr); C03_hybrid_formula / C03_hybrid_generated (C03_safe with Safe.hybrid instantiated) are stated about them and the driver evaluates the generated tree against real _hybridScore values (hyb lines, bit for bit). "
+           "T3 dump-and-search: after every batch of random histories (inserts, vector updates, vector removal, deletes, id reuse, batches naming a point twice, whole neighbourhoods deleted; degree bounds 1..5, search sizes 1..39, six metrics, none/binary/product quantisers, warm and cold cache) on a real file-backed shard the index is dumped through (*Shard).VerifDB(); for every query the dump, the real distance of the query to every stored vector (vectorstore.DistanceFromFloat of a store opened on the persisted bucket) and the pre-filter's node ids go to the Lean model of IndexVamana.Search/greedySearch/DistSet, whose answer (ids, order, distances, hybrid scores) must equal the answer of Shard.SearchPoints; the property oracle (brute force over the dump) judges the real answer directly, including each reported distance against the index's distance to the vector the point's DOCUMENT carries at the schema path right now (scratch vector store on the persisted bucket); the vector index is on a flat property in 45 % and on a NESTED path (n.v, n.m.v, a.b.c.v) in 55 % of the configurations, with updates that replace / delete the top-level object above the leaf, carry a sibling only, an empty object, a nil leaf or an unrelated key",
     "required_theorems": [
+        # formula theorems (Formula.lean; notes/T1ext.md section 8): the hybrid expression generated from vamana.go
+        "Sema.C03.C03_weight_default", "Sema.C03.C03_hybrid_formula", "Sema.C03.C03_hybrid_generated",
         "Sema.C03.C03_safe", "Sema.C03.C03_safe_shard", "Sema.C03.C03_rejects", "Sema.C03.C03_exact_filter",
         "Sema.C03.C03_exact_connected", "Sema.C03.C03_exact_small",
         # tie theorems (SemaModel/C03/Tie.lean, notes/T1ext.md section 7): the model's DistSet = the definitions generated from shard/index/vamana/distset.go
@@ -16,6 +19,7 @@ SPEC = {
         "Sema.C03.C03_tie_addAlreadyUnique", "Sema.C03.C03_tie_sort",
     ],
     "trusted_base": [
+        "the hybrid formula theorem fixes the expression structure `((-1) * distance) * weight` only; IEEE rounding is not interpreted; the distance function dq stays a free parameter of the search theorems",
         "SemaModel/C03/Model.lean (DistSet, greedySearch, Search) and SemaModel/C10/Model.lean (graph build used by C03_exact_small): hand-written, tied to the code by the correspondence above",
         "float arithmetic: distances are elements of an abstract linear order; the harness supplies the real float32 values through the order-preserving map of their bit patterns (-0.0 identified with +0.0, NaN/Inf excluded: such queries are skipped and counted); the hybrid score -(weight*distance) is computed by the harness in float32 and compared bit for bit with the reported one",
         "C03_safe's hypothesis WF is C10's theorem (C10_step / C10_history) and is observed on every dump by the C10 harness",
